@@ -64,6 +64,11 @@ def decl_menu():
     for w in ["0", "1", "31", "32", "33", "64", "(-1)", "(1 - 2)", "4294967295u", "(1 ? 40 : 2)"]:
         out.append(("decl/bitfield-width-range", "struct B { unsigned a : %s; unsigned b : 2; } b; int f(void){ b.b = 1; return b.b; }" % w))
         out.append(("decl/bitfield-width-range-ll", "struct B { unsigned long long a : %s; int b : 2; } b; int f(void){ b.b = 1; return b.b; }" % w))
+    out.append(("decl/anonymous-union", "struct V { int tag; union { int i; float f; struct { short lo; short hi; }; }; }; struct V gv; int f(int a){ struct V *v = &gv; v->i = a; v->lo = 3; return v->i + v->hi + gv.tag; }"))
+    out.append(("decl/anonymous-struct", "union U { struct { int p; int q; }; long long w; }; union U gu; int f(int a){ gu.p = a; gu.q = 2; return (int)gu.w + gu.q; }"))
+    out.append(("decl/anonymous-offsetof", "struct V { int tag; union { int i; struct { short lo; short hi; }; }; }; unsigned long f(void){ return __builtin_offsetof(struct V, hi) + __builtin_offsetof(struct V, i); }"))
+    out.append(("pp/include-quote-missing", "#include \"vf_no_such_header.h\"\nint f(void){ return 1; }"))
+    out.append(("pp/include-angle-missing", "#include <vf_no_such_header.h>\nint f(void){ return 1; }"))
     out.append(("decl/bool", "_Bool b = 1; int f(void){ return b; }"))
     out.append(("decl/compound-literal", "struct P { int x; int y; }; int f(void){ struct P p = (struct P){1, 2}; return p.x + p.y; }"))
     out.append(("decl/vla-free", "int f(int n){ int a[4]; int i; for (i = 0; i < 4; i++) a[i] = n; return a[3]; }"))
